@@ -37,7 +37,7 @@ F7_ID = "F7-options-mutated"
 
 FACTS_V = """From Coq Require Import List Bool String.
 Import ListNotations.
-From BWConc Require Import Conc.
+From BWConc Require Import Conc ConcStruct.
 From BWConc.Gen Require Import LockFactsGen.
 Definition bad (chk : method -> bool) : list string :=
   map m_name (filter (fun m => negb (chk m)) (mt_methods memory_methods)).
@@ -52,7 +52,11 @@ Definition F_hash := Eval vm_compute in (all_same_hash memory_lookup_hashes, Lis
 Definition F_sect := Eval vm_compute in
   (forallb (one_section_method memory_methods)
      ("memory.AddTriples" :: "memory.RemoveTriples" :: "memory.Exist" :: "memoryStore.NewGraph" :: "memoryStore.Graph" ::
-      "memoryStore.DeleteGraph" :: "memoryStore.GraphNames" :: memory_lookup_names)).
+      "memoryStore.DeleteGraph" :: "memoryStore.GraphNames" :: memory_lookup_names) &&
+   forallb (fun n => match find_method n (mt_methods memory_methods) with
+                     | Some m => match max_acq (m_body m) with Some k => Nat.leb k 1 | None => false end
+                     | None => false end)
+     ("memory.AddTriples" :: "memory.Exist" :: memory_lookup_names)).
 Definition F_counts := Eval vm_compute in
   (List.length (mt_methods memory_methods), fold_right plus 0 (map (fun m => List.length (m_paths m)) (mt_methods memory_methods))).
 Print F_locks. Print F_close. Print F_params. Print F_hash. Print F_sect. Print F_counts.
@@ -344,7 +348,8 @@ def run(ctx):
     if not fx["hash"][0] or fx["hash"][1] != 11:
         broken.append("the eleven lookups are no longer copies of one function (normalised-body hashes differ / count %d)" % fx["hash"][1])
     if not fx["sections"]:
-        broken.append("AddTriples / Exist / a lookup has more than one critical section per call")
+        broken.append("AddTriples / Exist / a lookup is no longer ONE critical section per call (a lock is taken inside a loop, "
+                      "or several sections on one path): a batch can be observed partially")
     if fx["params"][0] == unfixed:
         broken.append("translator inconsistency: memory_has_wrparam=%s but params_ok=%s" % (unfixed, fx["params"][0]))
     problems, meas = dynamic(ctx, unfixed)
